@@ -235,7 +235,7 @@ end Stats
 
 /-! ## part 2 — the float (`Dbl`) percentile -/
 namespace Stats
-open Dbl
+open Dbl StatsDbl
 
 theorem pow2_zero : pow2 0 = 1 := by rw [pow2_eq_zpow]; norm_num
 
@@ -436,7 +436,7 @@ theorem valueD_ge_min {s : List Rat} (hsorted : Sorted s) (hne : s ≠ []) (hs :
 end Stats
 
 namespace Stats
-open Dbl
+open Dbl StatsDbl
 
 /-! ## part 3 — record filtering, statistics, calculator structure -/
 
@@ -1240,7 +1240,7 @@ theorem gsInit_default (tbl : List KeySpec) : gsInit tbl none = tbl.map (fun s =
 end Stats
 
 namespace Stats
-open Dbl
+open Dbl StatsDbl
 
 /-! ## part 4 — the float percentile is close to the ideal one -/
 
